@@ -1,8 +1,10 @@
 //! Entry points for the coverage-guided fuzz targets in /verif/fuzz (libFuzzer through cargo-fuzz). Each target
-//! puts the property's oracle inside the target: either a differential oracle over the raw bytes (any byte string
-//! is in the domain) or the property's proptest generator driven by the fuzzer's bytes (proptest's PassThrough
-//! RNG), so that every generated case stays inside the generator's domain and the same oracle as in the
-//! structured check applies. Known findings are tolerated in-target and counted, so a campaign goes on past them.
+//! puts the property's oracle inside the target. The bytes are used in one of three ways: as the raw input of a
+//! differential oracle (where any byte string is in the domain: C03, C05, C13 texts, C10 decoding, C18); as a
+//! structure hand-decoded inside the domain of the property's proptest generator (frames, JSON values, cache
+//! operation sequences); or as a key for that generator plus an explicit read plan (requests and responses, whose
+//! generators carry too many implicit constraints to re-implement: the fuzzer then steers the segmentation).
+//! Known findings are tolerated in-target and counted, so a campaign goes on past them.
 
 use crate::engine::{catch, Fail, Known};
 use proptest::strategy::{Strategy, ValueTree};
@@ -13,13 +15,13 @@ use std::sync::{Mutex, OnceLock};
 
 /// (fuzz target, property id, maximum input length, what the bytes mean)
 pub const TARGETS: &[(&str, &str, usize, &str)] = &[
-    ("c02_request", "C02", 512, "bytes drive the request generator (proptest PassThrough RNG) and the read-plan seed"),
+    ("c02_request", "C02", 512, "bytes 0..32 key the request generator (ChaCha), the rest is the read plan (one read size per byte)"),
     ("c03_parsers", "C03", 4096, "byte 0 = parser (request, response, frame, JSON, config), byte 1 = delivery (all at once / byte by byte), rest = input"),
     ("c05_glob", "C05", 64, "byte 0 = split position, rest = pattern ++ text (lossy UTF-8)"),
-    ("c07_response", "C07", 768, "bytes drive the response generators (wire side and builder side) and the read-plan seed"),
-    ("c10_frames", "C10", 600, "byte 0 = mode: raw bytes decoded under a read plan, or bytes driving the frame generator"),
-    ("c13_json", "C13", 1024, "byte 0 = mode: the rest is a JSON text candidate (lossy UTF-8), or drives the value generator + layout"),
-    ("c16_cache", "C16", 1024, "bytes drive the cache operation-sequence generator"),
+    ("c07_response", "C07", 768, "byte 0 = side; wire side: bytes 1..33 key the response generator, the rest is the read plan; builder side: the bytes key the builder-spec generator"),
+    ("c10_frames", "C10", 600, "byte 0 = mode: raw bytes decoded under a read plan, or read plan + a frame decoded from the bytes (flags, opcode, mask, boundary lengths, payload)"),
+    ("c13_json", "C13", 1024, "byte 0 = mode: the rest is a JSON text candidate (lossy UTF-8), or a JSON value decoded from the bytes (serialise / parse round trip)"),
+    ("c16_cache", "C16", 1024, "cache size limit, time limit and an operation sequence (set/get, key, host, size) decoded from the bytes"),
     ("c18_codecs", "C18", 256, "byte 0 = codec (SHA-1, Base64 encode/decode, percent encode/decode, date), rest = input"),
 ];
 
@@ -37,32 +39,192 @@ fn out(fails: Vec<Fail>, nontrivial: bool, label: &'static str) -> FuzzOut {
     FuzzOut { fails, nontrivial, label }
 }
 
-/// A value of `strat` drawn with the fuzzer's bytes as the random source (zeros once they run out).
-fn draw<S: Strategy>(strat: &S, data: &[u8]) -> Option<S::Value> {
-    let rng = TestRng::from_seed(RngAlgorithm::PassThrough, data);
+/// A value of `strat` drawn from a ChaCha stream keyed by the first 32 bytes of `key` (zero padded). proptest's
+/// PassThrough RNG cannot be used: it halves the remaining bytes at every fork of the RNG, answers zeros once they
+/// run out, and rand 0.9's uniform integer sampler rejects a constant zero forever.
+fn draw<S: Strategy>(strat: &S, key: &[u8]) -> Option<S::Value> {
+    let mut seed = [0u8; 32];
+    for (i, b) in key.iter().take(32).enumerate() {
+        seed[i] = *b;
+    }
+    let rng = TestRng::from_seed(RngAlgorithm::ChaCha, &seed);
     let mut cfg = Config::default();
     cfg.failure_persistence = None;
     let mut runner = TestRunner::new_with_rng(cfg, rng);
     strat.new_tree(&mut runner).ok().map(|t| t.current())
 }
 
-fn seed_of(data: &[u8]) -> u64 {
-    let mut b = [0u8; 8];
-    for (i, x) in data.iter().rev().take(8).enumerate() {
-        b[i] = *x;
+/// Byte cursor for hand-decoded structures; answers zeros once the input runs out.
+struct Cur<'a> {
+    d: &'a [u8],
+    p: usize,
+}
+
+impl<'a> Cur<'a> {
+    fn new(d: &'a [u8]) -> Cur<'a> {
+        Cur { d, p: 0 }
     }
-    u64::from_le_bytes(b)
+    fn u8(&mut self) -> u8 {
+        let b = self.d.get(self.p).copied().unwrap_or(0);
+        self.p += 1;
+        b
+    }
+    fn u16(&mut self) -> u16 {
+        u16::from_le_bytes([self.u8(), self.u8()])
+    }
+    fn u32(&mut self) -> u32 {
+        u32::from_le_bytes([self.u8(), self.u8(), self.u8(), self.u8()])
+    }
+    fn u64(&mut self) -> u64 {
+        (self.u32() as u64) | ((self.u32() as u64) << 32)
+    }
+    fn left(&self) -> usize {
+        self.d.len().saturating_sub(self.p)
+    }
+    fn rest(&mut self) -> &'a [u8] {
+        let r = &self.d[self.p.min(self.d.len())..];
+        self.p = self.d.len();
+        r
+    }
+}
+
+/// The read plan encoded by the tail of a fuzz input: one read size per byte (1..=64, or a large read for 0xFF).
+fn plans_from(bytes: &[u8]) -> Vec<crate::common::http::Plan> {
+    use crate::common::http::Plan;
+    let sizes: Vec<usize> = bytes.iter().take(400).map(|b| if *b == 0xFF { 5000 } else { 1 + (*b as usize % 64) }).collect();
+    vec![Plan::Whole, if sizes.is_empty() { Plan::ByteWise } else { Plan::Sizes(sizes) }]
+}
+
+fn with_plans<R>(plans: Vec<crate::common::http::Plan>, f: impl FnOnce() -> R) -> R {
+    crate::common::http::PLAN_OVERRIDE.with(|p| *p.borrow_mut() = Some(plans));
+    let r = f();
+    crate::common::http::PLAN_OVERRIDE.with(|p| *p.borrow_mut() = None);
+    r
+}
+
+const STR_PALETTE: &[char] = &['a', 'b', 'Z', '0', ' ', '_', '-', '"', '\\', '/', '\u{8}', '\u{c}', '\n', '\r', '\t', '\u{0}', '\u{1f}', '\u{7f}', 'é', '😀', '\u{ffff}', '\u{10ffff}', '\u{d7ff}', '\u{e000}', '\u{2028}', '{', '}', '[', ']', ',', ':', 'u'];
+
+fn dec_string(c: &mut Cur) -> String {
+    let n = (c.u8() % 9) as usize;
+    let mut s = String::new();
+    for _ in 0..n {
+        let b = c.u8();
+        if b < 0xE0 {
+            s.push(STR_PALETTE[b as usize % STR_PALETTE.len()]);
+        } else {
+            // any scalar value
+            let v = c.u32() % 0x110000;
+            s.push(char::from_u32(v).unwrap_or('\u{fffd}'));
+        }
+    }
+    s
+}
+
+const NUMS: &[f64] = &[0.0, -0.0, f64::MAX, f64::MIN, f64::MIN_POSITIVE, 5e-324, 9007199254740993.0, -9007199254740992.0, 1e21, 1e-7, 0.1, 1.5e300, 1e15, 123456789.0, -1.0];
+
+fn dec_number(c: &mut Cur) -> f64 {
+    match c.u8() % 5 {
+        0 => (c.u16() as i64 - 1000) as f64,
+        1 => {
+            let f = f64::from_bits(c.u64());
+            if f.is_finite() {
+                f
+            } else {
+                1.0
+            }
+        }
+        2 => NUMS[c.u8() as usize % NUMS.len()],
+        3 => (c.u64() as i64) as f64,
+        _ => f64::from_bits(c.u64() % (1u64 << 52)),
+    }
+}
+
+/// Same domain as c13::arb_value: any finite number, any scalar values in strings, duplicate keys allowed, bounded depth.
+fn dec_value(c: &mut Cur, depth: usize, budget: &mut usize) -> crate::common::json::JV {
+    use crate::common::json::JV;
+    *budget = budget.saturating_sub(1);
+    let leaf_only = depth >= 5 || *budget == 0 || c.left() == 0;
+    match c.u8() % if leaf_only { 6 } else { 8 } {
+        0 => JV::Null,
+        1 => JV::Bool(c.u8() & 1 == 1),
+        2 | 3 => JV::Num(dec_number(c)),
+        4 | 5 => JV::Str(dec_string(c)),
+        6 => {
+            let n = (c.u8() % 6) as usize;
+            JV::Arr((0..n).map(|_| dec_value(c, depth + 1, budget)).collect())
+        }
+        _ => {
+            let n = (c.u8() % 6) as usize;
+            JV::Obj((0..n).map(|_| (dec_string(c), dec_value(c, depth + 1, budget))).collect())
+        }
+    }
+}
+
+/// Same domain as c10::arb_frame.
+fn dec_frame(c: &mut Cur) -> crate::common::ws::RFrame {
+    let b0 = c.u8();
+    let b1 = c.u8();
+    let mask = if b1 & 1 == 1 { Some([c.u8(), c.u8(), c.u8(), c.u8()]) } else { None };
+    const LENS: [usize; 11] = [0, 1, 124, 125, 126, 127, 128, 65534, 65535, 65536, 65537];
+    let len = match (b1 >> 1) % 4 {
+        0 => LENS[c.u8() as usize % LENS.len()],
+        1 | 2 => c.u16() as usize % 300,
+        _ => c.u32() as usize % 70_000,
+    };
+    // payload: the remaining input bytes repeated (so that the fuzzer controls the payload), or zeros
+    let rest = c.rest();
+    let payload: Vec<u8> = if rest.is_empty() { vec![0; len] } else { rest.iter().copied().cycle().take(len).collect() };
+    crate::common::ws::RFrame { fin: b0 & 1 == 1, rsv: [b0 & 2 != 0, b0 & 4 != 0, b0 & 8 != 0], opcode: crate::common::ws::OPCODES[(b0 >> 4) as usize % 6], mask, payload }
+}
+
+/// Same domain as c16::arb_seq.
+fn dec_seq(c: &mut Cur) -> crate::props::c16::SeqCase {
+    use crate::props::c16::{Op, SeqCase};
+    let limit = match c.u8() % 6 {
+        0 => 0,
+        1 => 1,
+        2 => 100,
+        3 => 1000,
+        4 => 65536,
+        _ => 2 + c.u16() as usize % 69_998,
+    };
+    let time_limit = [0usize, 1, 60][c.u8() as usize % 3];
+    let n = 1 + c.u8() as usize % 119;
+    let mut ops = Vec::new();
+    for _ in 0..n {
+        let b = c.u8();
+        let key = c.u8() % 32;
+        let host = (b >> 2) % 3;
+        if b & 3 == 3 {
+            ops.push(Op::Get { key, host });
+        } else {
+            let size = match (b >> 4) % 5 {
+                0 | 1 => c.u32() as usize % (limit + 1),
+                2 => limit,
+                3 => (limit / 2 + 1).min(limit),
+                _ => 0,
+            };
+            ops.push(Op::Set { key, host, size });
+        }
+        if c.left() == 0 {
+            break;
+        }
+    }
+    SeqCase { limit, time_limit, ops }
 }
 
 pub fn fuzz_one(target: &str, data: &[u8]) -> FuzzOut {
     match target {
         "c02_request" => {
             thread_local! { static S: proptest::strategy::BoxedStrategy<crate::common::http::ReqSpec> = crate::common::http::arb_req().boxed(); }
-            match S.with(|s| draw(s, data)) {
+            // bytes 0..32 key the request generator, the rest is the read plan
+            let (key, plan) = data.split_at(data.len().min(32));
+            match S.with(|s| draw(s, key)) {
                 None => out(vec![], false, "rejected-by-generator"),
                 Some(spec) => {
                     let (nt, labels) = crate::props::c02::nontrivial(&spec);
-                    out(crate::props::c02::check(&spec, seed_of(data), None), nt, labels.last().copied().unwrap_or("request"))
+                    let f = with_plans(plans_from(plan), || crate::props::c02::check(&spec, 0, None));
+                    out(f, nt || !plan.is_empty(), labels.last().copied().unwrap_or("request"))
                 }
             }
         }
@@ -106,9 +268,11 @@ pub fn fuzz_one(target: &str, data: &[u8]) -> FuzzOut {
             }
             if data[0] & 1 == 0 {
                 thread_local! { static S: proptest::strategy::BoxedStrategy<crate::props::c07::RespSpec> = crate::props::c07::arb_resp().boxed(); }
-                match S.with(|s| draw(s, &data[1..])) {
+                let d = &data[1..];
+                let (key, plan) = d.split_at(d.len().min(32));
+                match S.with(|s| draw(s, key)) {
                     None => out(vec![], false, "rejected-by-generator"),
-                    Some(spec) => out(crate::props::c07::check_wire(&spec, seed_of(data), None), true, "wire"),
+                    Some(spec) => out(with_plans(plans_from(plan), || crate::props::c07::check_wire(&spec, 0, None)), true, "wire"),
                 }
             } else {
                 thread_local! { static S: proptest::strategy::BoxedStrategy<crate::props::c07::BuildSpec> = crate::props::c07::arb_build().boxed(); }
@@ -131,11 +295,11 @@ pub fn fuzz_one(target: &str, data: &[u8]) -> FuzzOut {
                 };
                 out(crate::props::c10::check_decode(bytes, &plan).into_iter().collect(), bytes.len() >= 2, "raw-decode")
             } else {
-                thread_local! { static S: proptest::strategy::BoxedStrategy<crate::common::ws::RFrame> = crate::props::c10::arb_frame(70_000).boxed(); }
-                match S.with(|s| draw(s, &data[1..])) {
-                    None => out(vec![], false, "rejected-by-generator"),
-                    Some(f) => out(crate::props::c10::check_frame(&f, seed_of(data), None), true, "generated-frame"),
-                }
+                // bytes 1..17: read plan; then the frame
+                let d = &data[1..];
+                let (plan, fr) = d.split_at(d.len().min(16));
+                let f = dec_frame(&mut Cur::new(fr));
+                out(with_plans(plans_from(plan), || crate::props::c10::check_frame(&f, 0, None)), true, "decoded-frame")
             }
         }
         "c13_json" => {
@@ -147,30 +311,21 @@ pub fn fuzz_one(target: &str, data: &[u8]) -> FuzzOut {
                 let valid = crate::common::json::parse(&s, 64).is_some();
                 out(crate::props::c13::check_text(&s).into_iter().collect(), valid && s.len() > 2, if valid { "valid-text" } else { "invalid-text" })
             } else {
-                thread_local! { static S: proptest::strategy::BoxedStrategy<crate::common::json::JV> = crate::props::c13::arb_value().boxed(); }
-                match S.with(|s| draw(s, &data[1..])) {
-                    None => out(vec![], false, "rejected-by-generator"),
-                    Some(v) => {
-                        let indent = match (data[0] >> 1) % 3 {
-                            0 => None,
-                            1 => Some(2),
-                            _ => Some(4),
-                        };
-                        out(crate::props::c13::check_value(&v, indent).into_iter().collect(), true, "generated-value")
-                    }
-                }
+                let mut budget = 48usize;
+                let v = dec_value(&mut Cur::new(&data[1..]), 0, &mut budget);
+                let indent = match (data[0] >> 1) % 3 {
+                    0 => None,
+                    1 => Some(2),
+                    _ => Some(4),
+                };
+                out(crate::props::c13::check_value(&v, indent).into_iter().collect(), true, "decoded-value")
             }
         }
         "c16_cache" => {
-            thread_local! { static S: proptest::strategy::BoxedStrategy<crate::props::c16::SeqCase> = crate::props::c16::arb_seq().boxed(); }
-            match S.with(|s| draw(s, data)) {
-                None => out(vec![], false, "rejected-by-generator"),
-                Some(c) => {
-                    let mut st = crate::props::c16::Stats { evictions: false, overwrites: false };
-                    let f = crate::props::c16::check_seq(&c, &mut st);
-                    out(f, st.evictions || st.overwrites, "sequence")
-                }
-            }
+            let c = dec_seq(&mut Cur::new(data));
+            let mut st = crate::props::c16::Stats { evictions: false, overwrites: false };
+            let f = crate::props::c16::check_seq(&c, &mut st);
+            out(f, st.evictions || st.overwrites, "sequence")
         }
         "c18_codecs" => {
             if data.is_empty() {
@@ -197,6 +352,49 @@ pub fn fuzz_one(target: &str, data: &[u8]) -> FuzzOut {
             out(f.into_iter().collect(), rest.len() > 1, label)
         }
         _ => out(vec![Fail::new("harness", format!("unknown fuzz target {}", target))], false, "unknown"),
+    }
+}
+
+// ------------------------------------------------------------------------------------------ corpus replay (quick tier)
+
+/// Re-evaluates every committed corpus input of the property's fuzz targets with the in-target oracle, inside `hv`
+/// (no libFuzzer, no nightly toolchain): the seconds-long replay tier of the fuzzing campaigns.
+pub fn replay_corpus(ctx: &crate::engine::Ctx) {
+    for t in TARGETS.iter().filter(|t| t.1 == ctx.id) {
+        let dir = format!("{}/corpus/fuzz/{}", crate::engine::VERIF_DIR, t.0);
+        let mut files: Vec<std::path::PathBuf> = match std::fs::read_dir(&dir) {
+            Ok(rd) => rd.filter_map(|e| e.ok().map(|e| e.path())).filter(|p| p.is_file()).collect(),
+            Err(_) => continue,
+        };
+        files.sort();
+        let next = std::sync::atomic::AtomicUsize::new(0);
+        let target = t.0;
+        crate::engine::shards(8, |_| loop {
+            let i = next.fetch_add(1, Ordering::SeqCst);
+            if i >= files.len() || ctx.has_failed() {
+                break;
+            }
+            let data = match std::fs::read(&files[i]) {
+                Ok(d) => d,
+                Err(_) => continue,
+            };
+            let r = match catch(|| fuzz_one(target, &data)) {
+                Ok(r) => r,
+                Err(p) => {
+                    ctx.inconclusive(&format!("fuzz corpus replay of {} panicked in the harness: {}", files[i].display(), p));
+                    continue;
+                }
+            };
+            let label = format!("fuzz-corpus:{}:{}", target, r.label);
+            ctx.case(crate::engine::hash_of(&(target, &data)), r.nontrivial, &[label.as_str()]);
+            if let Some(f) = ctx.triage(r.fails) {
+                let path = format!("{}/replay/{}-fuzz-{}-crash-{:016x}", crate::engine::VERIF_DIR, ctx.id, target, crate::engine::hash_of(&data));
+                let _ = std::fs::create_dir_all(format!("{}/replay", crate::engine::VERIF_DIR));
+                let _ = std::fs::write(&path, &data);
+                ctx.violation_file(f, path);
+            }
+        });
+        ctx.sample(&format!("fuzz-corpus:{}", target), || serde_json::json!({"target": target, "corpus_files": files.len(), "input": t.3}));
     }
 }
 
